@@ -86,8 +86,8 @@ def cases(draw, tier='quick'):
     elif draw(st.integers(0, 19)) >= 15:
         # quick: a modest share through the functional form and the
         # multi-file openers on netCDF pieces written to scratch
-        entry = draw(st.sampled_from(['pncmfopen', 'mfdataset', 'pncmfopen',
-                                      'stack_files']))
+        entry = draw(st.sampled_from(['pncmfopen', 'mfdataset', 'stack_files',
+                                      'pncmfopen', 'stack_files']))
     if entry != 'method' and draw(st.integers(0, 5)) == 0:
         # many small pieces (10-12 of length 1) of a compact file
         small = draw(S.filespecs(max_len=3, max_dims=3, max_vars=3,
@@ -417,8 +417,11 @@ def judge(r, case, out, models, m0, d, edges, entry):
                     r.label('masked-cells-stored-as-fill')
                 ov = np.ma.MaskedArray(np.asarray(np.ma.getdata(la)),
                                        mask=np.ma.getmaskarray(la) | asfill)
+        # functional / disk forms: values and masks only (Pseudo2NetCDF
+        # takes the type of a 0-d all-masked netCDF variable from numpy's
+        # float64 masked constant); numeric comparison stays exact
         msg = S.cmp_array(ov, exp, 'variable %s%r' % (name, mv.dims),
-                          bits=True)
+                          bits=True, check_dtype=not light)
         if msg:
             r.fail('data-' + tag, msg, klass=klass)
         if not light:
